@@ -3,10 +3,15 @@ package main
 import (
 	"encoding/binary"
 	"fmt"
+	"strings"
 
 	"github.com/SAP/go-dblib/asetypes"
+	"github.com/SAP/go-dblib/tds"
 	"github.com/SAP/go-dblib/vrt"
+	"verif/harness/pkgcorpus"
 	"verif/harness/valgrid"
+	"verif/hlib"
+	"verif/ref/tdspkg"
 	"verif/ref/tdsval"
 )
 
@@ -169,6 +174,11 @@ func histLeg() {
 		sound = append(sound, v)
 	}
 	vals = sound
+	if h.Mine(1) {
+		for _, v := range vals {
+			runRows(v)
+		}
+	}
 	idx := 0
 	for _, a := range vals {
 		for _, b := range vals {
@@ -181,4 +191,84 @@ func histLeg() {
 			}
 		}
 	}
+}
+
+// other returns a second, different value of the same type and width.
+func other(v valgrid.Val) valgrid.Val {
+	o := v
+	switch v.K {
+	case "u8", "u16", "u32", "u64":
+		o.U = v.U ^ 0x15
+	case "i16", "i32", "i64":
+		o.I = v.I ^ 0x15
+	case "f32", "f64":
+		o.U = v.U ^ 0x100
+	case "bool":
+		o.I = 1 - v.I
+	case "str":
+		o.S = "Z" + v.S
+	case "bin":
+		o.X = append([]byte{0x5a}, v.X...)
+		if v.DT == tdsval.BINARY {
+			o.X = append([]byte{}, v.X...)
+			o.X[0] ^= 0xff
+		}
+	case "time":
+		if v.DT == tdsval.TIME || v.DT == tdsval.TIMEN || v.DT == tdsval.BIGTIMEN {
+			o.Ns = v.Ns + 3600e9 // a time of day: one hour later
+		} else {
+			o.Day = v.Day + 1
+		}
+	case "dec":
+		o.S = "7" + strings.TrimPrefix(v.S, "-")
+	}
+	return o
+}
+
+// runRows: the row-package leg with SEVERAL rows of one result set. Row k+1 is
+// decoded with row k as its context (as the channel does it); what row k
+// delivered must still be there afterwards.
+func runRows(v valgrid.Val) {
+	if isTxtPtr(v.DT) {
+		return
+	}
+	w := other(v)
+	rf := fmtFor(v)
+	rf.Status = 0x20
+	sig := "C04|" + v.Name() + "|row-leg|"
+	pan, msg := hlib.Catch(func() {
+		rowfmt := tdspkg.RowFmt{Wide: true, Fmts: []tdspkg.Fmt{rf}}
+		var prev tds.Package
+		var err error
+		prev, err = pkgcorpus.ParseNext(rowfmt.Encode(), nil)
+		if err != nil {
+			h.Violate(sig+"format-error|"+v.Cls, fmt.Sprintf("%s: reference-encoded row format does not parse: %v", v, err), Case{Val: v})
+			return
+		}
+		vals := []valgrid.Val{v, w, v}
+		var rows []*tds.RowPackage
+		for i, x := range vals {
+			row := tdspkg.Data{Row: true, Fmts: rowfmt.Fmts, Values: []interface{}{x.Ref()}}
+			p, err := pkgcorpus.ParseNext(row.Encode(), prev)
+			if err != nil {
+				h.Violate(sig+"decode-error|"+v.Cls, fmt.Sprintf("%s: row %d of 3 (reference-encoded) does not parse: %v", x, i, err), Case{Val: v})
+				return
+			}
+			rows = append(rows, p.(*tds.RowPackage))
+			prev = p
+		}
+		for i, x := range vals {
+			got := rows[i].DataFields[0].Value()
+			if ok, why := valgrid.SameValue(x, got, valgrid.Tolerance(x)); !ok {
+				h.Violate(sig+"earlier-row-changed|"+v.Cls, fmt.Sprintf("rows %s / %s / %s of one result set: after all three were decoded row %d holds: %s", vals[0], vals[1], vals[2], i, why), Case{Val: v})
+				return
+			}
+		}
+		h.Outcome("rows-ok")
+	})
+	if pan {
+		h.Violate(sig+"panic|"+v.Cls, fmt.Sprintf("%s: %s", v, msg), Case{Val: v})
+	}
+	h.Eval(true)
+	h.Section("row-leg-three-rows", 1)
 }
